@@ -842,6 +842,11 @@ static void op_option(struct ctx *c)
         else if (z->has_def && z->type != T_GENAUX && !z->def_unknown) {
             const char *def = NULL; uref_flow_get_def(fd, &def);
             if (!def || strcmp(def, defname(z->defv))) FAILP(ORACLE_OPTS, "get/flow-def", "%s get_flow_def returns '%s', the accepted definition was '%s'", zoo[z->type].name, def ? def : "(null)", defname(z->defv));
+            /* two of the definitions have the same name and differ by an attribute: the getter reports the one accepted last */
+            uint64_t ex = 0;
+            bool has_extra = ubase_check(uref_attr_get_unsigned(fd, &ex, UDICT_TYPE_UNSIGNED, "x.extra"));
+            if (!c->ret && has_extra != ((z->defv & 15) == 2))
+                FAILP(ORACLE_OPTS, "get/flow-def", "%s get_flow_def returns a definition %s the attribute x.extra, the definition accepted last (v%d) %s it", zoo[z->type].name, has_extra ? "with" : "without", z->defv & 15, (z->defv & 15) == 2 ? "carries" : "does not carry");
         }
         break; }
     }
